@@ -38,9 +38,18 @@ claim("C03", "other",
       "monotonicity of CNT, and the returned dictionary is {step: count}; check_nyquist_frequency raises ValueError iff some centre frequency "
       "exceeds 1/(2 dt). Bounded (labelled): one curve per retained recording, in input order, each equal (rtol 1e-10) to the curve of that "
       "recording processed alone, Nyquist refusal - evaluated natively for every arrangement of up to 3 time steps over 1-4 recordings "
-      "(non-involutive groupings first), 4 methods x 3 policies. The row reordering of the traditional_* drivers (scatter through "
-      "hvsr_indices_to_order) is not yet under contract.",
-      TB + "A-DICT (insertion-ordered dict), A-NP-MAX; monotonicity / range of CNT are used as axioms justified by proved step lemmas (A-INDUCTION).",
+      "(non-involutive groupings first), 4 methods x 3 policies. Also proved: the row bookkeeping of traditional_hvsr_processing and "
+      "traditional_single_azimuth_hvsr_processing for every number of recordings and every arrangement of time steps - nested loop invariants "
+      "over the dictionary's groups and the recordings (group offsets OFF(t) as prefix sums of the counts, positions OFF(group)+CNT(step,i)), "
+      "the scatter through hvsr_indices_to_order and the final gather - giving: row i of the result is the smoothed spectral ratio computed "
+      "from kept recording i alone, the frequency vector is the centre frequencies, ValueError only if some centre frequency exceeds a "
+      "recording's Nyquist frequency. In that proof the numerical stages (window, rfft, modulus, combination, smoothing) are uninterpreted "
+      "array functions (their contracts are C01/C02/C10/C18) and the callee prepare_records_with_inconsistent_dt is used through its "
+      "proved contract. traditional_rotdpp_hvsr_processing and azimuthal_hvsr_processing are covered by the bounded clauses only.",
+      TB + "A-DICT (insertion-ordered dict), A-NP-MAX; monotonicity / strictness / range of the counting and offset functions are axioms justified by "
+      "proved base/step lemmas (A-INDUCTION); A-COUNT-TOTAL (the per-step counts add up to the number of recordings) and smoothed vertical spectra "
+      "non-zero are assumed in the driver proofs; smoothing is assumed row-wise (each output row a function of the same input row: what C02 proves "
+      "row by row).",
       "contract-based deductive verification (symbolic dictionary, ghost counting function, loop invariants; z3+cvc5) + bounded exhaustive-arrangement native evaluation", "DESIGN.md 5/C03")
 
 claim("C08", "other",
